@@ -66,8 +66,8 @@ func TestSites(t *testing.T) {
 	if v := variantsOf(t, "print(1)", "final-nl-present"); len(v) != 1 || !strings.HasSuffix(v[0], "=> print(1)\n") {
 		t.Errorf("final-nl-present: %v", v)
 	}
-	// newline inside a raw string is not a site
-	if v := variantsOf(t, "s := `a\nb`\n", "crlf"); len(v) != 1 {
+	// a newline inside a raw string is a line end of the file too (Go discards the carriage return there)
+	if v := variantsOf(t, "s := `a\nb`\n", "crlf"); len(v) != 2 {
 		t.Errorf("crlf sites: %v", v)
 	}
 	// a block comment may not be inserted where it would turn "/" into "//"
